@@ -14,7 +14,7 @@ RULE = ("nestings of &&, || and ?: whose operands are boolean constants, call-lo
 ASSUMPTIONS = ["an error in an *evaluated* operand aborts (this implementation's documented semantics), "
                "so `fail() || true` is expected to be an error"]
 
-ERR_FORMS = ['div', 'ovf', 'key', 'undecl', 'fail']
+ERR_FORMS = ['div', 'ovf', 'key', 'undecl', 'fail', 'undeclfn', 'undeclmethod']
 
 
 class Builder:
@@ -42,6 +42,10 @@ class Builder:
             return ('sel', ('map', []), 'k')
         if f == 'undecl':
             return ('id', 'nosuchvar')
+        if f == 'undeclfn':
+            return ('call', 'nosuchfn', [self.tag()])
+        if f == 'undeclmethod':
+            return ('mcall', ('lit', B(True)), 'nosuchmethod', [])
         return ('call', 'fail', [self.tag()])
 
 
